@@ -3,6 +3,7 @@
 package scheduler
 
 import (
+	"github.com/apache/yunikorn-core/pkg/common/resources"
 	"github.com/apache/yunikorn-core/pkg/scheduler/objects"
 )
 
@@ -12,9 +13,20 @@ import (
 func VerifC04_StaleReservationDroppedNotAnnounced() {
 	vPanics(false)
 	vUnwind(40)
-	w := vPartition(2)
+	// concrete capacities (large), symbolic ask sizes: the lemma does not depend on how full the nodes are
+	w := vPartition(0)
+	big := resources.NewResource()
+	for i := 0; i < vNK(); i++ {
+		big.Resources[vKeys[i]] = resources.Quantity(1 << 42)
+	}
+	for _, id := range []string{"node-1", "node-2"} {
+		n := objects.NewNode(nodeInfo(id, big))
+		vAssert(w.pc.AddNode(n) == nil, "world: node added")
+		w.nodes = append(w.nodes, n)
+	}
 	app := w.addApp("app-1")
-	res := vResPos("ask")
+	// one resource type of symbolic size: the lemma is about reservation bookkeeping, not about sizes
+	res := resources.NewResourceFromMap(map[string]resources.Quantity{vKeys[0]: resources.Quantity(vRange("ask.k0", 1, 1000))})
 	ask := objects.NewAllocationFromSI(vSIAlloc("ask-1", "app-1", "", res))
 	_, _, e1 := w.pc.UpdateAllocation(ask)
 	vAssert(e1 == nil && app.GetAllocationAsk("ask-1") == ask, "world: ask accepted")
@@ -26,7 +38,7 @@ func VerifC04_StaleReservationDroppedNotAnnounced() {
 	vAssume(e2 == nil && ask.IsAllocated())
 	vAssert(ask.GetNodeID() == "node-2", "world: the ask is bound to node-2 by the RM")
 	// another ask keeps the scheduling cycle going
-	other := objects.NewAllocationFromSI(vSIAlloc("ask-2", "app-1", "", vResPos("other")))
+	other := objects.NewAllocationFromSI(vSIAlloc("ask-2", "app-1", "", resources.NewResourceFromMap(map[string]resources.Quantity{vKeys[0]: 1})))
 	_, _, e3 := w.pc.UpdateAllocation(other)
 	vAssert(e3 == nil, "world: second ask accepted")
 
